@@ -37,6 +37,21 @@ def gen_faults(items):
         return D('SAVE_METAS_SYNC_THEN_ATOMIC_WRITE', 1, 'save_metas: sync_directory()?; atomic_write(meta.json)?')
     items.append(save_metas)
 
+    # does save_metas sync the directory again AFTER the rename (durability barrier)? 0 / 1
+    def save_metas_sync2():
+        body = fn_body(su, 'save_metas')
+        m = re.search(r'directory\.atomic_write\(&META_FILEPATH,[^;]*\)\?\s*;', body)
+        if not m:
+            raise Fail(su + '::save_metas: atomic_write(meta.json)? not found')
+        rest = body[m.end():]
+        n = len(re.findall(r'directory\.sync_directory\(\)', rest))
+        if n > 1:
+            raise Fail(su + '::save_metas: more than one sync_directory after the rename (not modelled)')
+        if n == 1 and not re.search(r'directory\.sync_directory\(\)\?\s*;', rest):
+            raise Fail(su + '::save_metas: the sync_directory after the rename does not propagate its error with `?` (not modelled)')
+        return D('SAVE_METAS_SYNC_AFTER_WRITE', n, 'save_metas: number of `sync_directory()?` after atomic_write(meta.json)')
+    items.append(save_metas_sync2)
+
     # prepare_commit: recreate channel; take handles; join each, `?` on the result, restart that worker
     def prepare_commit():
         body = fn_body(iw, 'prepare_commit')
